@@ -257,6 +257,10 @@ class Component(Spatialable):
     name: str
     """ The name of this `Component`. """
 
+    _costs_computed: NoParse[frozenset] = frozenset()
+    """ Which of "area", "energy", "throughput", "leak" Spec.calculate_component_costs
+    has already computed (scales applied) for this `Component`. """
+
     component_class: Optional[str] = None
     """ The class of this `Component`. Used if an energy or area model needs to be
     called for this `Component`. """
